@@ -1,6 +1,6 @@
 SPECIFICATION GSpec
 CONSTANTS
-  MaxEdits = 3
+  MaxEdits = 5
 INVARIANTS
   EmitCase
   StillWF
